@@ -32,6 +32,10 @@
 (*   Mode "create"  one state per create-then-get case; the case space is  *)
 (*                  the full product of the per-field classes, indexed by  *)
 (*                  0..NCreate-1 (Picks selects the cases to emit);        *)
+(*   Mode "sim"     like "seq", for -simulate: the mask of an update is    *)
+(*                  composed path by path (in or out), so that every       *)
+(*                  subset is equally likely and a state has few           *)
+(*                  successors;                                            *)
 (*   Mode "seq"     create, then up to Depth steps, each an Update with    *)
 (*                  ANY subset of the mask paths (MaskPaths) and a new     *)
 (*                  request from NewReqs, or the deletion of a topic;      *)
@@ -149,8 +153,12 @@ Reqs == <<
   R("unicode", "small",  "huge",   FALSE, TRUE,  "absent", "absent", "empty",    "set",  TRUE,  "",   5,   "many")
 >>
 
-VARIABLES S, hist
-vars == <<S, hist>>
+VARIABLES S, hist,
+          pend   \* Mode "sim" only: the update being composed (request id, mask so far)
+vars == <<S, hist, pend>>
+PendOff == [on |-> FALSE, id |-> 0, i |-> 0, mask |-> {}]
+PathOrder == <<"labels", "expiration_policy", "message_retention_duration", "enable_message_ordering",
+               "retry_policy", "push_config", "filter", "dead_letter_policy", "topic.labels">>
 
 Masks == SUBSET MaskPaths
 
@@ -195,19 +203,41 @@ Init ==
                               ShowLabels(req.tlabels, 0), {}) IN
             /\ S = st
             /\ hist = <<[op |-> "create", k |-> 0, req |-> req, want |-> Want(st)]>>
+            /\ pend = PendOff
             /\ PrintT(<<"CASE", ToJson([id |-> i, steps |-> hist])>>)
-  ELSE S = None /\ hist = <<>>
+  ELSE S = None /\ hist = <<>> /\ pend = PendOff
 
 Emit == /\ PrintT(<<"SCENARIO", ToJson(hist)>>)
-        /\ hist' = Append(hist, [op |-> "end"]) /\ UNCHANGED S
+        /\ hist' = Append(hist, [op |-> "end"]) /\ UNCHANGED <<S, pend>>
+
+UpdateOK(mask, id) ==
+  /\ ("dead_letter_policy" \in mask /\ Reqs[id].dl.present) => Reqs[id].dl.topic \notin S.dead
+  /\ "topic.labels" \in mask => "t1" \notin S.dead
+
+\* -simulate: compose the mask of the next update path by path
+SimStep ==
+  IF ~pend.on
+  THEN \/ \E id \in NewIds : pend' = [on |-> TRUE, id |-> id, i |-> 1, mask |-> {}] /\ UNCHANGED <<S, hist>>
+       \/ \E t \in DelTopics : DeleteStep(t) /\ UNCHANGED pend
+  ELSE IF pend.i <= Len(PathOrder)
+  THEN \E b \in BOOLEAN :
+         /\ pend' = [pend EXCEPT !.i = @ + 1,
+                                  !.mask = IF b /\ PathOrder[pend.i] \in MaskPaths
+                                           THEN @ \cup {PathOrder[pend.i]} ELSE @]
+         /\ UNCHANGED <<S, hist>>
+  ELSE /\ pend' = PendOff
+       /\ IF UpdateOK(pend.mask, pend.id) THEN UpdateStep(pend.mask, pend.id)
+          ELSE UNCHANGED <<S, hist>>
 
 Next ==
   IF Mode = "create" THEN UNCHANGED vars
-  ELSE IF hist = <<>> THEN \E id \in CreateIds : CreateStep(Reqs[id])
+  ELSE IF hist = <<>> THEN (\E id \in CreateIds : CreateStep(Reqs[id])) /\ UNCHANGED pend
   ELSE IF hist[Len(hist)].op = "end" THEN UNCHANGED vars
   ELSE IF Len(hist) = Depth + 1 THEN Emit
-  ELSE \/ \E mask \in Masks : \E id \in NewIds : UpdateStep(mask, id)
-       \/ \E t \in DelTopics : DeleteStep(t)
+  ELSE IF Mode = "sim" THEN SimStep
+  ELSE /\ UNCHANGED pend
+       /\ \/ \E mask \in Masks : \E id \in NewIds : UpdateStep(mask, id)
+          \/ \E t \in DelTopics : DeleteStep(t)
 
 Spec == Init /\ [][Next]_vars
 
@@ -217,7 +247,7 @@ Spec == Init /\ [][Next]_vars
 \* mask locality of the reference: an update leaves every path outside the
 \* mask as it was and gives every path inside the mask the normalised new value
 LocalityOK ==
-  (Mode = "seq" /\ Len(hist) >= 2 /\ hist[Len(hist)].op = "update") =>
+  (Mode \in {"seq", "sim"} /\ Len(hist) >= 2 /\ hist[Len(hist)].op = "update") =>
      LET e == hist[Len(hist)]
          before == hist[Len(hist) - 1].want.sub[1]
          after == e.want.sub[1] IN
